@@ -14,7 +14,8 @@ HEADS = [('select', 'SELECT', ' 1'), ('insert', 'INSERT', ' into t values (1)'),
          ('delete', 'DELETE', ' from t'), ('create', 'CREATE', ' table t (a int)'), ('drop', 'DROP', ' table t'),
          ('alter', 'ALTER', ' table t add c int'), ('create or replace', 'CREATE OR REPLACE', ' view v as select 1'),
          ('with x as (select 1) select', 'SELECT', ' * from x'), ('with x as (select 1), y as (select 2) insert', 'INSERT', ' into t select * from x'),
-         ('merge', 'MERGE', ' into t using s on a = b'), ('replace', 'REPLACE', ' into t values (1)'), ('truncate', 'TRUNCATE', ' table t'),
+         ('merge', 'MERGE', ' into t using s on a = b'), ('with recursive x as (select 1) select', 'SELECT', ' * from x'),
+         ('with recursive r (n) as (select 1 union all select n + 1 from r) update', 'UPDATE', ' t set a = 1'), ('replace', 'REPLACE', ' into t values (1)'), ('truncate', 'TRUNCATE', ' table t'),
          ('commit', 'COMMIT', ''), ('foo', 'UNKNOWN', ' bar'), ('(select 1)', 'UNKNOWN', ''), ('values', 'UNKNOWN', ' (1)'),
          ('explain', 'UNKNOWN', ' select 1'), ('begin', 'UNKNOWN', '')]
 PREFIX = ['', ' ', '\n\t', '-- c\n', '/* c */ ', '/*+ h */', ' -- a\n /* b */\n', '\r\n']
